@@ -57,6 +57,32 @@ NOTES = {   # what happened on the FIRST trial of a change, and what was strengt
     "C19-5": "round 3. Same parsing slip as C04-5 seen from C19 (under-counted remote connections): C04 reports it; C19's clusters inject the remote counts directly.",
     "C19-6": "round 3. Same change as C02-6 seen from C19: C11 reports it.",
     "C20-5": "round 3. First trial: MISSED (the stress run's loopback gossip rarely queues two datagrams). The receive-loop histories now also run in a race-detector build.",
+    "C01-7": "round 4. NOT COVERED: needs TLS between the nodes with per-node certificates (a shared tls.Config mutated by the first dial); every harness runs plaintext clusters.",
+    "C01-8": "round 4. First trial: MISSED (no proxy harness cluster verified tokens). Clusters whose proxy ports verify tokens (Authorization and x-piko-authorization), requests entering at a node without the upstream: the token has to survive the inter-node hop (monitor token-refused).",
+    "C02-8": "round 4. NOT COVERED: needs the application to write the protocol's reserved key _internal:compact through the gossip API; piko's server never does, and on the unchanged tree such a write already clashes with the marker (DESIGN 9 i).",
+    "C03-7": "round 4. First trial: caught only as disagreement (packet bytes). Rediscovery probe: a live node that a peer suspected and expired completes two digest exchanges with that peer and must be known again.",
+    "C04-8": "round 4. First trial: MISSED. Endpoint id ending in _addr added to the syncer's endpoint ids.",
+    "C05-8": "round 4. MISSED by C05 (the upstream harness does not compact the gossip state); C17's compaction probes report it.",
+    "C06-7": "round 4. Same change as C01-8 seen from C06: token clusters.",
+    "C06-8": "round 4. A balancer defect (cursor wrap before the removal): C15's balancer histories report the out-of-range panic; C06's clusters have one upstream per endpoint and node.",
+    "C07-7": "round 4. First trial: MISSED. Thorough tier only (it needs a consumer that is more than 5 s late after the writer closed): slow-consumer tunnel scenarios (7 s).",
+    "C08-8": "round 4. Same family as C01-8 (token stripped before the hop), reported by the token clusters.",
+    "C09-7": "round 4. First trial: MISSED (no wired deployment combined a key set with audience/issuer). Wired layout: the same JWKS keys guard three ports that differ only in audience and issuer.",
+    "C09-8": "round 4. NOT COVERED: needs a remote (http) JWKS endpoint whose content changes over time and the cache TTL to pass (key revocation); the harness serves static file:// key sets.",
+    "C10-8": "round 4. First trial: MISSED by C10 (C09's tenants-only wired layout reports it). Wired tenants-only deployment added to C10.",
+    "C11-7": "round 4. First trial: caught only as disagreement. Rule leave-keeps-old-deadline: learning of the departure of a node held as unreachable restarts the expiry period.",
+    "C13-7": "round 4. First trial: MISSED. The receive-loop probe now also sizes the read buffer to the largest datagram of the burst (a datagram that fills the buffer exactly is legitimate) and runs in C13.",
+    "C13-8": "round 4. First trial: MISSED. A valid join request cut at every byte offset: a rejected request is not applied in part.",
+    "C14-7": "round 4. First trial: caught only as disagreement (events). Corpus history empty-value-after-delete.",
+    "C15-7": "round 4. First trial: MISSED (at most 6 upstreams per endpoint). Scale-down histories: 40-70 upstreams connect, most disconnect, the survivors are still selected in turn.",
+    "C15-8": "round 4. The TCP route's forwarded check: C06's clusters report the loop (13 handler invocations); C15 drives the manager directly.",
+    "C16-7": "round 4. First trial: MISSED (verifier configurations were built by hand). via_load: the configuration goes through the real auth.Config.Load, with a plain secret and with a JWKS key set.",
+    "C16-8": "round 4. Thorough tier only (the server's keep-alive needs 40 s to notice): blackhole op - the network path goes silent, nothing is closed.",
+    "C17-8": "round 4. MISSED by C17's quick tier (its bulk histories reach the situation only sometimes); C02's V4 rule reports it.",
+    "C18-7": "round 4. First trial: MISSED. Scenario graceful-grace-exhausted (a 3 s request entering at the departing node outlasts a 0.8 s grace period): the departure is still announced.",
+    "C18-8": "round 4. First trial: MISSED (rebalancing was never enabled). Scenario graceful-rebalance-enabled: shutdown terminates with the rebalance loop running.",
+    "C19-7": "round 4. First trial: MISSED (averages up to 200). Corpus configurations with shed rate 0 / 0.005 and averages above 200.",
+    "C19-8": "round 4. First trial: MISSED. The configuration `piko server` starts from (Default(), flags registered, empty command line) is compared with Default().",
 }
 
 
